@@ -448,6 +448,19 @@ theorem rec_updnoc (cfg : Cfg) (n : Node) (sid s node ser : Nat) (mode : Mode) (
               rec_same (fabGen_setFabric n f { f with node := node, ser := ser } rfl rfl (by rw [hidx]; exact hgf)) rfl rfl rfl h
             exact rec_same (n := setFabric n { f with node := node, ser := ser }) (fun i => rfl) rfl rfl rfl h1
 
+theorem rec_undoAdded {n : Node} (idx : Nat) (hg : GenInv n) (h : Rec n) : Rec (undoAdded n idx) := by
+  have hg' := undoAdded_genInv n idx hg
+  have hl : RecLive (undoAdded n idx) := by
+    unfold undoAdded
+    split
+    · have ⟨k1, k2, k3⟩ := rec_removeFabricKey_keep (n := n) idx
+      exact recLive_same k1 k2 k3 h.live
+    · exact h.live
+  refine rec_commit hg' hl ?_ h.hist
+  rcases undoAdded_hist n idx with ⟨_, hh⟩ | ⟨hkv, hh⟩
+  · exact Or.inr hh
+  · left; rw [hh, hkv]
+
 theorem rec_complete (cfg : Cfg) (n : Node) (sid s : Nat) (mode : Mode) (hg : GenInv n) (h : Rec n) :
     Rec (sessOp cfg n sid mode (.complete s)).1 := by
   simp only [sessOp]
@@ -476,7 +489,13 @@ theorem rec_complete (cfg : Cfg) (n : Node) (sid s : Nat) (mode : Mode) (hg : Ge
           rw [hsn] at h3
           simp only at h3
           cases b4 with
-          | false => simp only []; exact rec_same (n := n4) (fun i => rfl) rfl rfl rfl h3
+          | false =>
+            simp only []
+            have hg4 : GenInv n4 := by
+              have := genInv_storeNets { n1 with managed := true } hg2
+              rw [hsn] at this; exact this
+            exact rec_undoAdded f.idx (genInv_same (n := n4) rfl rfl rfl rfl hg4)
+              (rec_same (n := n4) (fun i => rfl) rfl rfl rfl h3)
           | true => simp only [ok]; exact rec_same (n := n4) (fun i => rfl) rfl rfl rfl h3
 
 theorem rec_rmfab (cfg : Cfg) (n : Node) (sid s idx : Nat) (mode : Mode) (hg : GenInv n) (h : Rec n) :
